@@ -1,1 +1,4 @@
-//! extension harness hx03
+//! extension harness hx03: compio-compat RuntimeCompat under the real tokio / async-io adapters (check X03)
+pub mod ctl;
+pub mod prog;
+pub mod run;
